@@ -330,6 +330,8 @@ class World:
             rhs = b.obj
             si.operands = [a, b]
             si.info["ragged"] = len(b.obj) != n
+        if a.typ == "table" and not a.obj.cols():
+            si.info["ragged"] = False        # a table without columns has nothing the new columns could disagree with
         si.info["form"] = form
         si.info["left"] = snap(a.obj)
         si.info["right_cols"] = self._cols_of(rhs, form)
@@ -355,6 +357,8 @@ class World:
         si.info["left"] = snap(a.obj)
         if a.typ == "table":
             k = len(a.obj.cols())
+            if k == 0:
+                return None                  # a 0 x 0 table has no columns to append rows to
             form = ["row", "rows", "table", "bad"][step[3] % 4]
             if form == "row":
                 rhs = self.vals(step, k)
